@@ -342,7 +342,8 @@ class Client:
 
         for l in capabilities.splitlines():
             parts = l.split(None, 1)
-            cname = parts[0].strip(b'"').decode("utf-8")
+            # capability names are case-insensitive
+            cname = parts[0].strip(b'"').decode("utf-8").upper()
             if cname not in KNOWN_CAPABILITIES:
                 continue
             self.__capabilities[cname] = (
